@@ -339,6 +339,14 @@ def plan(plan, tier, seed):
     except AnchorLost as e:
         plan.anchor_errors.append((nr, str(e)))
     plan.dropped.append(vC06r.__doc__.strip())
+    nic = "C06.verus.Interpreter.compile.every_step_once_in_plan_order"
+    plan.ob(nic, "verus", "proved", functions=["src/interpreter/src/interpreter.rs: Interpreter::compile (whole body)"],
+            what="the bytecode is the serialisation of ONE fresh compile context into which every step of the plan was compiled exactly once, in plan order; the first step that fails to compile (or a failing serialisation) fails the compilation -- for every plan and every behaviour of the per-step compilers")
+    try:
+        plan.verus.append(vlib.VerusUnit("c06_icompile", vC06r.compile_unit(vlib.read_repo(vC06r.PATH)), {"interpreter_compile": nic}, ["canary_c06_compile"]))
+    except vlib.AnchorLost as e:
+        plan.anchor_errors.append((nic, str(e)))
+    plan.dropped.append(vC06r.compile_fn.__doc__.strip())
     plan.assumptions.append("run_program loop: a factory is an opaque value and applying it yields an opaque function object build(factory, arity, arguments); Value::clone is the identity on identities; the emitted-program precondition (operands < reg_count, const ids < constant count, no Ret) is what CompileCtx guarantees (register allocator contract: C06.ctx.*) -- the two are not composed mechanically; a hostile file violating it makes the loop index out of bounds (outside C06: the property speaks of compiled programs)")
     # ---- container constants: both writers of MechTable / MechSet / MechTuple against the layout their reader consumes
     from units import vC06c
